@@ -283,8 +283,23 @@ func (e *MapExp) FindRefs() []*RefExp {
 }
 func (e *RefExp) FindRefs() []*RefExp {
 	refs := []*RefExp{e}
-	for _, i := range e.Forks {
-		if m := i.IndexSource(); m != nil {
+	if len(e.Forks) == 0 {
+		return refs
+	}
+	// Visit the calls in a repeatable order, so that the references come
+	// out in the same order on every run.
+	calls := make([]*CallStm, 0, len(e.Forks))
+	for c := range e.Forks {
+		calls = append(calls, c)
+	}
+	sort.Slice(calls, func(a, b int) bool {
+		if calls[a].Id != calls[b].Id {
+			return calls[a].Id < calls[b].Id
+		}
+		return calls[a].DecId < calls[b].DecId
+	})
+	for _, c := range calls {
+		if m := e.Forks[c].IndexSource(); m != nil {
 			if s, ok := m.(Exp); ok {
 				refs = append(refs, s.FindRefs()...)
 			}
